@@ -6,7 +6,7 @@ use std::path::Path;
 use vh::val::Val;
 
 /// All regular files below `root` as (relative path with '/', observable content), sorted.
-/// A file whose bytes are a complete gzip stream is reported as 0x1f 0x8b ++ decompressed bytes.
+/// A file whose bytes are a complete gzip stream or zstd frame is reported as 0x1f 0x8b ++ decompressed bytes.
 pub fn listing(root: &Path) -> Vec<(String, Vec<u8>)> {
     let mut out = vec![];
     walk(root, "", &mut out);
@@ -39,6 +39,14 @@ pub fn observable(raw: Vec<u8>) -> Vec<u8> {
         let mut d = flate2::read::GzDecoder::new(&raw[..]);
         let mut plain = vec![];
         if d.read_to_end(&mut plain).is_ok() {
+            let mut v = vec![0x1f, 0x8b];
+            v.extend(plain);
+            return v;
+        }
+    }
+    // a complete zstd frame (magic 28 B5 2F FD) is reported the same way: "compressed" ++ plain bytes
+    if raw.len() >= 4 && raw[..4] == [0x28, 0xb5, 0x2f, 0xfd] {
+        if let Ok(plain) = zstd::stream::decode_all(&raw[..]) {
             let mut v = vec![0x1f, 0x8b];
             v.extend(plain);
             return v;
